@@ -180,4 +180,17 @@ theorem C17_tgen_rewrite_truncates : has_rewrite_opentrunc = "yes" := by decide
     the entry. -/
 theorem C26_tgen_threshold_memo : has_sw_threshold_memo = "yes" ∧ has_lsm_threshold_memo = "yes" := by decide
 theorem C06_tgen_threshold_memo : has_sw_threshold_memo = "yes" ∧ has_lsm_threshold_memo = "yes" := by decide
+/-- C37 / C24: an inline value is stored with the value-pointer bit cleared, in ONE place for every
+    mode (`Db.lsmForm`); a backup carries the raw meta byte of its source. -/
+theorem C37_tgen_writetolsm_clears_vptr :
+    has_writetolsm_clears_vptr = "yes" ∧ n_writetolsm_put = 2 := by decide
+theorem C24_tgen_writetolsm_clears_vptr :
+    has_writetolsm_clears_vptr = "yes" ∧ n_writetolsm_put = 2 := by decide
+/-- C11 / C07: every entry a table builder adds — stale (deleted, expired, discarded) or not — counts
+    towards the table's MaxVersion, from which `Open` seeds the next timestamp (`Db.maxVersion`
+    folds over ALL stored entries). -/
+theorem C11_tgen_table_maxversion :
+    has_addhelper_maxversion = "yes" ∧ has_addinternal_maxversion = "no" := by decide
+theorem C07_tgen_table_maxversion :
+    has_addhelper_maxversion = "yes" ∧ has_addinternal_maxversion = "no" := by decide
 end Badger
